@@ -39,6 +39,6 @@ LEVEL_NOTE = "K6 summary (R+1)//3 replaces the float rounding inside CH harnesse
 TECHNIQUE = "cvc5 QF_BVFP lemma on the live rounding expression + CrossHair symbolic execution of the HOPO rule"
 ENGINE = "FK+CH"
 EXPLANATION = "see obligation_table"
-BOUNDS = "R<=1e8 for K6; 96 (quick) / 1024 (thorough) ordered note pairs; ints unbounded"
+BOUNDS = "R<=1e8 for K6 (+ the live function on 3020 resolutions); 96 (quick) / 1024 (thorough) ordered note pairs; ints unbounded; two resolutions in one process (symbolic) and a 9-resolution history per note pair (native)"
 OUTSIDE = "R>1e8; the accidental enum member Note.Self"
 ASSUMPTIONS = [S1, S2, S5, E3]
